@@ -16,7 +16,7 @@ dst = f'{V}/seeded/{pid}-{k}' if not rnd else f'{V}/seeded/{pid}-r{rnd}-{k}'
 src = f'/tmp/seed{rnd}_out/{pid}/{k}'
 if os.path.isdir(src):
     os.makedirs(dst, exist_ok=True)
-    for f in ('patch.diff', 'demo.rs', 'meta.json'):
+    for f in ('patch.diff', 'demo.rs', 'meta.json', 'verify.json'):
         if os.path.exists(f'{src}/{f}'):
             shutil.copy(f'{src}/{f}', f'{dst}/{f}')
 assert subprocess.run(['git', '-C', '/repo', 'status', '--porcelain'], capture_output=True, text=True).stdout.strip() == '', 'repo dirty'
